@@ -17,6 +17,8 @@ struct Obj {
   virtual Value get() const = 0;
   virtual size_t get_size() = 0;
   virtual int write(WriterBox&) = 0;   // ErrorStatus as int, 0 = success
+  // One Serializer object: GetSize(current value), assign v2 to the SAME object, Write it (buffer kinds only).
+  virtual int size_assign_write(WriterBox&, const Value& v2, size_t* first_size) = 0;
   virtual int read(ReaderBox&) = 0;
 };
 
@@ -95,6 +97,14 @@ struct ObjOf : Obj {
     return kUnsupported;
   }
 
+  int size_assign_write(WriterBox& w, const Value& v2, size_t* first_size) override {
+    if constexpr (!M::kHandle) {
+      if (w.kind == W_Buf) { nop::Serializer<nop::BufferWriter*> s(&w.buf); *first_size = s.GetSize(h.get()); assign(v2); return st(s.Write(h.get())); }
+      if (w.kind == W_Ped) { nop::Serializer<nop::PedanticBufferWriter*> s(&w.ped); *first_size = s.GetSize(h.get()); assign(v2); return st(s.Write(h.get())); }
+    }
+    (void)v2; (void)first_size;
+    return kUnsupported;
+  }
   int read(ReaderBox& r) override {
     T* obj = &h.get();
     switch (r.kind) {
